@@ -105,6 +105,11 @@ def make_cfgs(rng, n, months_choices=(12, 13, 24)):
         # maximum height (loads far too large), = 2: at the minimum height (negligible loads),
         # = 3: loads far too large without the flag (the error), = 0: random
         forced = (i // len(GEOMS) + i % len(GEOMS)) % 4
+        # both flow specifications on ordinary (not forced) searches of every design method
+        if forced == 0 and cfg["flow_type"] != "SYSTEM":
+            cfg["flow_type"], cfg["flow"] = "SYSTEM", round(cfg["flow"] * (4, 12, 30)[i % 3], 3)
+        elif forced == 3 and i % 3 != 0 and cfg["flow_type"] != "BOREHOLE":
+            cfg["flow_type"], cfg["flow"] = "BOREHOLE", phys["flow"]
         if forced == 1:
             cfg["scale"], cfg["cont"], cfg["profile"] = 6.0 + (i % 5), True, "atlanta"
             cfg["loads"] = [x * cfg["scale"] for x in ghelib.atlanta_loads()]
@@ -177,7 +182,9 @@ def instrument(rec: Recorder):
                 where, l, i = _locate(self, coordinates, rec.nested)
                 last = self.searchTracker[-1]
                 rec.evals.append({"where": where, "list": l, "idx": i, "h": float(h), "excess": float(v), "nbh": len(coordinates),
-                                  "spec": str(field_specifier), "max_eft": float(last[2]), "min_eft": float(last[3])})
+                                  "spec": str(field_specifier), "max_eft": float(last[2]), "min_eft": float(last[3]),
+                                  "mflow": float(self.ghe.bhe.m_flow_borehole), "vsys": float(self.ghe.V_flow_system),
+                                  "rho": float(self.ghe.bhe.fluid.rho)})
                 return v
 
             saved.append((cls, "calculate_excess", orig))
@@ -340,6 +347,45 @@ def run_design(cfg):
     return out
 
 
+def boundary_chain(arg):
+    """A returned design whose sizing root sits a tolerance-scale distance inside one end of the
+    height window: starting from an ordinary run (root H*), the window end is moved to H* -/+ 2 cm
+    and then, from the excess recorded at that end, to where the excess at the end is about 3e-3 K
+    (between the sizing tolerance 1e-3 K and ten times it).  Returns [(boundary info, record)]."""
+    cfg, h_star, side, first_id = arg
+    res = []
+    key = "min_h" if side == "low" else "max_h"
+    sgn = -1.0 if side == "low" else 1.0
+    bound = h_star + sgn * 0.02
+    for step in range(2):
+        c = {k: v for k, v in cfg.items() if k not in ("followed_by", "follows")}
+        c.update({"id": first_id + step, key: bound, "boundary_of": cfg["id"], "boundary_side": side})
+        if not (0 < c["min_h"] < c["max_h"]):
+            break
+        r = run_design(c)
+        r["boundary"] = {"of": cfg["id"], "side": side, key: bound}
+        res.append(r)
+        root = r["roots"][-1] if r.get("outcome") == "design" and r.get("roots") else None
+        if root is None:
+            break
+        f_end = root["f_lower"] if side == "low" else root["f_upper"]
+        dist = abs(r["H"] - bound)
+        if not (f_end * sgn < 0 and dist > 0):       # low end: excess > 0 there; high end: < 0
+            break
+        slope = abs(f_end) / dist
+        bound = r["H"] + sgn * 3e-3 / slope
+    return res
+
+
+def boundary_cfg(cfgs_by_id, rec):
+    b = rec["boundary"]
+    base = cfgs_by_id[b["of"]]
+    c = {k: v for k, v in base.items() if k not in ("followed_by", "follows")}
+    c.update({"id": rec["id"], "boundary_of": b["of"], "boundary_side": b["side"]})
+    c.update({k: b[k] for k in ("min_h", "max_h") if k in b})
+    return c
+
+
 def search_stage_excess(cfg, coords, h):
     """What calculate_excess(coords, h) must return, from fresh objects: GHE built at height h on a
     g-function computed for [h], simulated with the hybrid method."""
@@ -432,11 +478,29 @@ def get_runs(ctx, n_quick=24, n_thorough=240):
     if path.exists():
         try:
             recs = json.loads(path.read_text())
-            if len(recs) == len(cfgs):
-                return cfgs, recs, True
+            if len([r for r in recs if "boundary" not in r]) == len(cfgs):
+                by_id = {c["id"]: c for c in cfgs}
+                return cfgs + [boundary_cfg(by_id, r) for r in recs if "boundary" in r], recs, True
         except Exception:  # noqa: BLE001
             pass
     recs = core.pool_map(run_design, cfgs, workers=16)
+    # second phase: roots a tolerance-scale distance inside the ends of the height window
+    cand = [(c, r) for c, r in zip(cfgs, recs)
+            if r.get("outcome") == "design" and not is_escape(r) and r.get("roots") and "follows" not in c
+            and r["roots"][-1]["f_lower"] > 0 > r["roots"][-1]["f_upper"] and c["min_h"] + 0.5 < r["H"] < c["max_h"] - 0.5]
+    seen_g, picked = set(), []
+    for c, r in cand:                  # one per design method first, then the rest
+        if c["geom"][0] not in seen_g:
+            seen_g.add(c["geom"][0])
+            picked.append((c, r))
+    picked += [(c, r) for c, r in cand if all(c["id"] != p[0]["id"] for p in picked)]
+    n_b = 3 if ctx.tier == "quick" else 18
+    args = [(c, r["H"], "high" if j % 3 == 2 else "low", 100000 + 2 * j) for j, (c, r) in enumerate(picked[:n_b])]
+    chains = core.pool_map(boundary_chain, args, workers=16) if args else []
+    extra = [r for ch in chains for r in ch]
+    by_id = {c["id"]: c for c in cfgs}
+    cfgs = cfgs + [boundary_cfg(by_id, r) for r in extra]
+    recs = recs + extra
     for old in CACHE.glob(f"designs-{ctx.tier}-{ctx.seed}-*.json"):
         old.unlink()
     path.write_text(json.dumps(recs))
